@@ -35,8 +35,9 @@ Spec == Init /\ [][Next]_vars
 \* the closed form the property states: the next failure returns min * 2^k capped at max
 ClosedForm == k <= 20 => cur = Min2(min * Pow2(k), max)
 
-Furthest == TLCGet(1) >= l \/ TLCSet(1, l)
+Furthest == \/ TLCGet(1) >= l
+            \/ TLCSet(1, l) /\ TLCSet(2, [cur |-> cur, min |-> min, max |-> max, k |-> k])
 TraceAccepted == IF TLCGet(1) = Len(Rec) + 1 THEN TRUE
-                 ELSE PrintT(<<"REJECT", TLCGet(1), ToJson([cur |-> cur, min |-> min, max |-> max, k |-> k])>>) /\ FALSE
-ASSUME TLCSet(1, 0)
+                 ELSE PrintT(<<"REJECT", TLCGet(1), ToJson(TLCGet(2))>>) /\ FALSE
+ASSUME TLCSet(1, 0) /\ TLCSet(2, "none")
 =============================================================================
